@@ -147,6 +147,21 @@ func ruleC10(c *Ctx) {
 		cl, ok := classify(fn.Name())
 		pos := c.FPos(fn)
 		if !ok {
+			// a method the protocol does not name: an observer if it writes nothing at all (effect summary: no write
+			// through the receiver or anything else)
+			writes := false
+			for _, w := range c.effects().WritesOf(fn) {
+				if w.Root.Kind != "fresh" {
+					writes = true
+				}
+			}
+			if !writes {
+				R.Use("C10.1")
+				R.OK("encode.(*Encoder)."+fn.Name()+"#observer", pos, "not part of the protocol and writes nothing (effect summary): cannot change the automaton's state")
+				continue
+			}
+		}
+		if !ok {
 			R.Use("C10.1")
 			R.Unknown("encode.(*Encoder)."+fn.Name()+"#class", pos, "exported method not covered by the protocol model")
 			continue
